@@ -57,6 +57,8 @@ pub struct GenCfg {
     pub rich: bool,
     /// Inbound PUBREL also with reason 0x92 and for identifiers never used (C08).
     pub pubrel_variants: bool,
+    /// Percentage of publishes padded beyond the announced Maximum Packet Size.
+    pub oversize_pct: u64,
 }
 
 impl GenCfg {
@@ -114,6 +116,7 @@ impl GenCfg {
             always_settle: false,
             rich: false,
             pubrel_variants: false,
+            oversize_pct: 0,
         }
     }
 
@@ -283,7 +286,14 @@ impl<'a> Gen<'a> {
 
     pub fn new_op_spec(&mut self, kind: usize, op: usize) -> OpSpec {
         let payload = {
-            let n = if self.cfg.big_payloads && self.rng.chance(1, 3) { self.rng.urange(400, 1500) } else { self.rng.urange(0, 12) };
+            let oversize = self.cfg.oversize_pct > 0 && self.rng.below(100) < self.cfg.oversize_pct;
+            let n = if oversize {
+                self.cfg.max_packet.unwrap_or(60) as usize + self.rng.urange(1, 40)
+            } else if self.cfg.big_payloads && self.cfg.max_packet.is_none() && self.rng.chance(1, 3) {
+                self.rng.urange(400, 1500)
+            } else {
+                self.rng.urange(0, 12)
+            };
             let mut b = format!("p{op}:").into_bytes();
             b.extend(self.rng.bytes(n));
             b
